@@ -11,6 +11,7 @@
 From Coq Require Import String List NArith ZArith.
 From Tink Require Import Bytes UntrustedConsts Untrusted UntrustedSpec UntrustedProofs.
 From Tink Require Import UntrustedSites UntrustedSitesProofs UntrustedPanicSites.
+From Tink Require Import UntrustedParams UntrustedParamsProofs.
 Import ListNotations.
 Open Scope string_scope.
 
@@ -38,6 +39,15 @@ Proof.
   destruct p as [[[[priv L] kd] prefix] idreq]. destruct priv.
   - apply parse_jwt_ecdsa_priv_np.
   - apply parse_jwt_ecdsa_pub_np.
+Qed.
+
+Lemma iface_has_idreq_np o : o <> None -> iface_has_idreq o <> Panic.
+Proof. destruct o; [discriminate|congruence]. Qed.
+
+Lemma make_z_np n : (0 <= n)%Z -> make_z n n <> Panic.
+Proof.
+  intros H. unfold make_z. destruct ((n <? 0)%Z || (n <? n)%Z)%bool eqn:E; [|discriminate].
+  apply Bool.orb_true_iff in E. destruct E as [E|E]; [apply Z.ltb_lt in E|apply Z.ltb_lt in E]; exfalso; auto with zarith.
 Qed.
 
 Definition panic_sites : list site := [
@@ -212,10 +222,12 @@ Definition panic_sites : list site := [
     (CArgued "length test in front of the decoder; the model's parser has no Panic constructor");
   mkSite "hybrid/ecies/protoserialization.go" "parseParameters" "proto.Clone(protoParams.GetDemParams().GetAeadDem()).(*tinkpb.KeyTemplate); demTemplate.OutputPrefixType = RAW" KTypeAssert
     "if GetDemParams() == nil { error }; if GetAeadDem() == nil { error } (two lines above)"
-    (CArgued "nil tests two lines above (has_sub in the model); Clone keeps the dynamic type; exercised by nil injections site-nil in gen6.go");
+    (CModel set_prefix_raw (ex_intro _ None eq_refl)
+            (fun q : list field * N => ecies_params_of parse_params_full (fst q) (snd q))
+            (fun q => ecies_params_of_np _ _ _ parse_params_full_np));
   mkSite "hybrid/ecies/protoserialization.go" "parseParameters" "protoserialization.ParseParameters(demTemplate) on an attacker-chosen template (any registered type URL, any value)" KStdlib
-    "every parameters parser returns errors; NewParameters accepts only six DEM parameter sets"
-    (CHarnessOnly "the model rejects every template outside the six accepted ones WITHOUT transcribing the other parameters parsers; exercised by gen3.go demTemplate and gen6.go (every field of the DEM template of the bank's ECIES keys)");
+    "every parameters parser returns errors (all 30 are transcribed, model/UntrustedParams.v parse_params: total functions whose only checked operation is the assignment through the DEM template pointer of a nested ECIES format, behind its nil test at every nesting level); NewParameters accepts only six DEM parameter sets"
+    (CModel set_prefix_raw (ex_intro _ None eq_refl) parse_params_full parse_params_full_np);
   mkSite "hybrid/ecies/protoserialization.go" "parsePublicKey" "BigIntBytesToFixedSizeBuffer(x / y, c); slices.Concat([]byte{0x04}, x, y)" KSlice
     "x, y from BigIntBytesToFixedSizeBuffer"
     (CModel (fun q : nat * nat * bytes => slice (fst (fst q)) (snd (fst q)) (snd q)) (ex_intro _ (1%nat, 0%nat, []) eq_refl)
@@ -297,17 +309,51 @@ Definition panic_sites : list site := [
     (CArgued "integer conversions of validated positive values; the model's prim_ok has no Panic constructor for the stream keys");
   mkSite "secretdata/secretdata.go" "NewBytesFromData" "bytes.Clone(data)" KStdlib
     "total"
-    (CArgued "identity on byte strings")
+    (CArgued "identity on byte strings");
+  (* ---- the PRF-based deriver key, the parameters parsers, the nested-key detours (model/UntrustedParams.v) ---- *)
+  mkSite "keyderivation/prfbasedkeyderivation/protoserialization.go" "keyParser.ParseKey" "protoserialization.ParseKey(prfKeyProtoSerialization): the parser of WHATEVER key type prf_key names runs on attacker bytes (every slice of every key parser is reachable here, recursively through nested deriver / composite keys)" KSlice
+    "NewParameters / NewKey refuse every key object that is not an aescmacprf / hkdfprf / hmacprf key AFTER the parser returned"
+    (CModel (fun q : nat * nat * bytes => slice (fst (fst q)) (snd (fst q)) (snd q)) (ex_intro _ (1%nat, 0%nat, []) eq_refl)
+            (fun p : stdlib * keydata * N * N => parse_key_full (fst (fst (fst p))) (snd (fst (fst p))) (snd (fst p)) (snd p))
+            (fun p => parse_key_full_np _ _ _ _));
+  mkSite "keyderivation/prfbasedkeyderivation/protoserialization.go" "keyParser.ParseKey / parametersParser.Parse" "protoserialization.ParseParameters(GetDerivedKeyTemplate()) / (GetPrfKeyTemplate()): the parameters parser of whatever type the template names, recursively (a deriver template inside a deriver template, an ECIES DEM template)" KNilDeref
+    "templates are read through nil-safe getters (a nil template has the empty type URL: no parser, an error); the only checked operation inside the parameters parsers sits behind its nil test"
+    (CModel set_prefix_raw (ex_intro _ None eq_refl)
+            (fun p : stdlib * keydata * N * N => parse_key_full (fst (fst (fst p))) (snd (fst (fst p))) (snd (fst p)) (snd p))
+            (fun p => parse_key_full_np _ _ _ _));
+  mkSite "keyderivation/prfbasedkeyderivation/protoserialization.go" "keyParser.ParseKey" "prfKey.Parameters(), NewParameters(prfKey.Parameters(), derivedKeyParameters): method calls on interface values returned by ParseKey / ParseParameters" KNilDeref
+    "err != nil returns before the value is used; every parser returns a non-nil object with a nil error"
+    (CArgued "error checked first; in the model the results are outcome values bound with bind (Err stops the parser)");
+  mkSite "keyderivation/prfbasedkeyderivation/parameters.go, key.go" "Parameters.HasIDRequirement / NewKey" "p.DerivedKeyParameters().HasIDRequirement(), parameters.PRFParameters().Equal(prfKey.Parameters()): method calls on the interface fields" KNilDeref
+    "NewParameters: if prfParameters == nil / derivedKeyParameters == nil { return error }; NewKey: if parameters == nil / prfKey == nil { return error }"
+    (CLemma iface_has_idreq (ex_intro _ None eq_refl) (fun o => o <> None) iface_has_idreq_np);
+  mkSite "keyderivation/prfbasedkeyderivation/keyderiver.go, protoserialization.go" "NewKeyDeriver / DeriveKey / SerializeKey" "key.PRFKey().(*hkdfprf.Key) with ', ok'; prfKey.Parameters().(*hkdfprf.Parameters), k.key.Parameters().(*Parameters), pbdKey.Parameters().(*Parameters)" KTypeAssert
+    "the first is the two-value form; the others assert the type the constructor of the same package stored"
+    (CArgued "checked assertion / static construction; prim_ok_x of the model refuses every PRF key that is not an HKDF key");
+  mkSite "keyderivation/internal/keyderivers/keyderivers.go" "the eight key derivers" "make([]byte, params.KeySizeInBytes()) with the key_size of the (untrusted) derived key template" KMake
+    "KeySizeInBytes is int(uint32 field): never negative on the 64-bit platform; the parameters parsers of HMAC, HKDF-PRF, HMAC-PRF and AES-GCM-HKDF streaming put NO upper bound on it"
+    (CLemma (fun n : Z => make_z n n) (ex_intro _ (-1)%Z eq_refl) (fun n => (0 <= n)%Z) make_z_np);
+  mkSite "signature/compositemldsa/protoserialization.go" "parseMLDSAPublicKey / parseClassicalPublicKey / parseClassicalPrivateKey / privateKeyParser.ParseKey" "protoserialization.ParseKey on both nested KeyData: the parser of WHATEVER type they name runs first (a composite in a composite, a deriver ...), the type assertion / parameter comparison refuses the result afterwards" KSlice
+    "if keyData == nil { return error } in front of each; every parser returns errors"
+    (CModel (fun q : nat * nat * bytes => slice (fst (fst q)) (snd (fst q)) (snd q)) (ex_intro _ (1%nat, 0%nat, []) eq_refl)
+            (fun p : stdlib * keydata * N * N => parse_key_full (fst (fst (fst p))) (snd (fst (fst p))) (snd (fst p)) (snd p))
+            (fun p => parse_key_full_np _ _ _ _));
+  mkSite "signature/rsassa{pkcs1,pss}, jwt/jwtrsassa{pkcs1,pss} protoserialization.go" "parametersParser.Parse / parseParameters" "int(exponent.Int64()) on the public_exponent of a key FORMAT" KIntConv
+    "if !exponent.IsInt64() { return error } in front of it"
+    (CArgued "integer conversion: truncates, does not panic; rsa_exponent in pp_rsa_pkcs1 / pp_rsa_pss / pp_jwt_rsa (None above 2^63-1); compared with the code on the exponent edges of params.go");
+  mkSite "*/*/protoserialization.go (30 files)" "parametersParser.Parse" "int(format.GetKeySize()), int(GetTagSize()), int32(GetCiphertextSegmentSize()), int(GetSaltLength()) ... on the fields of a key format" KIntConv
+    "the NewParameters of the package compares the converted value with its bounds"
+    (CArgued "integer conversions: do not panic; uint32 -> int is lossless on the 64-bit platform of the check, int32(uint32) and int(int32) wrap and the comparison that follows rejects every wrapped value (the same NewParameters as on the key path: theorem C14_wrapping_conversions_are_rejected); directedParams puts every varint field of every format at 0, 2^31-1, 2^31, 2^32-1, 2^32, 2^63, 2^64-1")
 ].
 
 (* Counts of the entries by constructor.  Only the first two kinds carry a
    checked no-panic fact (of the fixed shapes above); the other three carry
    none.  The numbers say nothing about the completeness of the list. *)
 Theorem panic_site_coverage_counts :
-  length panic_sites = 72%nat /\
-  count by_model_theorem panic_sites = 10%nat /\
-  count by_site_lemma panic_sites = 11%nat /\
-  count argued_only panic_sites = 43%nat /\
+  length panic_sites = 81%nat /\
+  count by_model_theorem panic_sites = 15%nat /\
+  count by_site_lemma panic_sites = 13%nat /\
+  count argued_only panic_sites = 46%nat /\
   count is_stdlib panic_sites = 6%nat /\
-  count is_harness_only panic_sites = 2%nat.
+  count is_harness_only panic_sites = 1%nat.
 Proof. vm_compute. repeat split. Qed.
